@@ -7,7 +7,6 @@ package main
 
 import (
 	"fmt"
-	"strings"
 	"sync/atomic"
 	"time"
 
@@ -67,18 +66,7 @@ func c08InFlight(cached, closerFlavour bool, which int) string {
 		closer.Close()
 		close(cd)
 	}()
-	for waiting := false; !waiting; {
-		select {
-		case <-cd:
-			waiting = true
-		default:
-			if g := atomic.LoadUint64(&closerGid); g != 0 && strings.Contains(goroutineStack(g), "sync.(*WaitGroup).Wait") {
-				waiting = true
-			} else {
-				time.Sleep(100 * time.Microsecond)
-			}
-		}
-	}
+	waitUntilParked(&closerGid, cd)
 	close(release)
 	<-cd
 	var got [nobj]int64
